@@ -291,6 +291,32 @@ def worker(payload):
         except Exception as e:  # any exception on a valid panel table is a failure
             fail('valid panel table accepted and evaluated', case, 'values', '%s: %s' % (type(e).__name__, str(e)[:300]))
             break   # engine state may be poisoned
+    # --- history: rows appended AFTER panel() (second wave of the same respondents) make individuals non-contiguous;
+    #     the map is rebuilt (sorted) before evaluation, so every individual still gets exactly its own rows
+    if payload['orders'] and kind != 'logit_placeholder':
+        cases += 1
+        order = payload['orders'][0]
+        case = {'ids': ids, 'kind': kind, 'b1': b1v, 'b2': b2v, 'history': 'panel(); append one more row per individual; evaluate'}
+        try:
+            df = table(order)
+            d = db.Database('c09hist', df)
+            d.panel('pid')
+            wave2 = pd.DataFrame([{'pid': i, 'x': blocks[i][0]['x'] + 0.25, 'y': blocks[i][0]['y'], 'c': blocks[i][0]['c']}
+                                  for i in reversed(ids)])
+            d.data = pd.concat([d.data, wave2], ignore_index=True)
+            blocks2 = {i: list(blocks[i]) + [dict(blocks[i][0], x=blocks[i][0]['x'] + 0.25)] for i in ids}
+            want2 = oracle(kind, blocks2, sorted_ids, b1v, b2v, R)
+            p = Parameters()
+            bg = BIOGEME(d, {'traj': PanelLikelihoodTrajectory(formula(False))}, parameters=p)
+            bg.modelName = 'c09hist'
+            sim = bg.simulate({'b1': b1v, 'b2': b2v})
+            okk = sorted(sim.index) == sorted_ids and all(close(sim.loc[i, 'traj'], want2[i][0]) for i in sorted_ids)
+            if not okk:
+                fail('history: rows appended after panel() still belong to their individual', case,
+                     {repr(i): want2[i][0] for i in sorted_ids}, sim.reset_index().values.tolist())
+        except Exception as e:
+            fail('history: rows appended after panel() still belong to their individual', case, 'values',
+                 '%s: %s' % (type(e).__name__, str(e)[:300]))
     # --- non-contiguous tables are refused by Database.panel (documented)
     for bad in payload['bad_orders']:
         cases += 1
